@@ -24,12 +24,15 @@ import (
 )
 
 type TierCfg struct {
-	Params   map[string]int64 `json:"params"`
-	Unwind   int              `json:"unwind"`
-	MaxPaths int              `json:"max_paths"`
-	MaxSteps int              `json:"max_steps"`
-	Timeout  int              `json:"timeout_ms"`
-	Skip     bool             `json:"skip"`
+	Params   map[string]int64   `json:"params"`
+	Unwind   int                `json:"unwind"`
+	MaxPaths int                `json:"max_paths"`
+	MaxSteps int                `json:"max_steps"`
+	Timeout  int                `json:"timeout_ms"`
+	Skip     bool               `json:"skip"`
+	Sets     []map[string]int64 `json:"param_sets"`
+	Label    string             `json:"-"`
+	Logic string `json:"logic"`
 }
 
 type Entry struct {
@@ -43,21 +46,22 @@ type Entry struct {
 }
 
 type Spec struct {
-	Property    string            `json:"property"`
-	Package     string            `json:"package"`
-	Dir         string            `json:"dir"`
-	Files       []string          `json:"files"`
-	TestFiles   []string          `json:"test_files"`
-	Entries     []Entry           `json:"entries"`
-	Redirects   map[string]string `json:"redirects"`
-	Bounds      map[string]string `json:"bounds"`
-	Assumptions []string          `json:"assumptions"`
-	Outside     []string          `json:"outside"`
-	Stubs       []string          `json:"stubs"`
-	Level       string            `json:"level"`
-	Tests       bool              `json:"tests"`
-	Units       []Unit            `json:"units"`
-	Native      []string          `json:"native_files"`
+	Property        string            `json:"property"`
+	Package         string            `json:"package"`
+	Dir             string            `json:"dir"`
+	Files           []string          `json:"files"`
+	TestFiles       []string          `json:"test_files"`
+	Entries         []Entry           `json:"entries"`
+	Redirects       map[string]string `json:"redirects"`
+	Bounds          map[string]string `json:"bounds"`
+	Assumptions     []string          `json:"assumptions"`
+	Outside         []string          `json:"outside"`
+	Stubs           []string          `json:"stubs"`
+	Level           string            `json:"level"`
+	Tests           bool              `json:"tests"`
+	Units           []Unit            `json:"units"`
+	Native          []string          `json:"native_files"`
+	ParallelEntries int               `json:"parallel_entries"`
 }
 
 type KnownFinding struct {
@@ -296,6 +300,7 @@ func uniqStrings(s []string) []string {
 }
 
 type evRun struct {
+	Name   string
 	Entry  Entry
 	Cfg    TierCfg
 	Res    *sym.EntryResult
@@ -327,7 +332,7 @@ func buildEvidence(spec *Spec, tier string, seed int, runs []*evRun, violations,
 		eo, ed := 0, 0
 		for _, k := range keys {
 			s := res.Sites[k]
-			if k == "$branch" || k == "$range" {
+			if strings.HasPrefix(k, "$") {
 				continue
 			}
 			o := s.Discharged + s.Violated + s.Unknown
@@ -345,7 +350,7 @@ func buildEvidence(spec *Spec, tier string, seed int, runs []*evRun, violations,
 			funcs[f] += c
 		}
 		e := map[string]any{
-			"entry": r.Entry.Func, "paths": res.Paths, "path_kinds": res.PathKinds, "assert_sites": sites,
+			"entry": r.Name, "paths": res.Paths, "path_kinds": res.PathKinds, "assert_sites": sites,
 			"solver_queries": res.Solver.Queries, "solver_sat": res.Solver.Sat, "solver_unsat": res.Solver.Unsat, "solver_unknown": res.Solver.Unknown,
 			"solver_time_s": round3(res.Solver.Time.Seconds()), "max_query_s": round3(res.Solver.MaxQuery.Seconds()), "wall_s": round3(res.Wall.Seconds()),
 			"instructions_executed": res.Steps, "max_decisions_on_a_path": res.MaxDecisions, "terms_built": res.Terms,
@@ -394,12 +399,12 @@ func buildEvidence(spec *Spec, tier string, seed int, runs []*evRun, violations,
 	cov := map[string]any{
 		"obligations": obl, "discharged": dis, "trivially_true_assertions": triv,
 		"evaluations": queries, "distinct_nontrivial": assertPaths,
-		"rule": "bounded symbolic execution of the Go SSA of the listed functions; one evaluation = one SMT query (branch feasibility or assertion); a case is one feasible path (distinct decision sequence) that ran to an assertion or to the end of the harness",
+		"rule":   "bounded symbolic execution of the Go SSA of the listed functions; one evaluation = one SMT query (branch feasibility or assertion); a case is one feasible path (distinct decision sequence) that ran to an assertion or to the end of the harness",
 		"states": max(states, 1), "transitions": max(queries, 1), "traces_validated_against_impl": replayed,
 		"samples": samples, "exhaustive": len(broken) == 0,
-		"checker_cmd": "gosmt check -spec " + specPath + " -tier " + tier,
-		"trusted_base": []string{"golang.org/x/tools/go/ssa v0.50.0", "gosmt SSA->SMT-LIB2 executor (/verif/engine)", "z3 5.1.0 (z3-new)"},
-		"explanation": "solver-based bounded checking of the real code: every path of the harness is executed symbolically from the SSA of /repo's working tree, every assertion is an SMT obligation (unsat = holds for all inputs inside the bounds); counterexamples are replayed natively before they are reported",
+		"checker_cmd":       "gosmt check -spec " + specPath + " -tier " + tier,
+		"trusted_base":      []string{"golang.org/x/tools/go/ssa v0.50.0", "gosmt SSA->SMT-LIB2 executor (/verif/engine)", "z3 5.1.0 (z3-new)"},
+		"explanation":       "solver-based bounded checking of the real code: every path of the harness is executed symbolically from the SSA of /repo's working tree, every assertion is an SMT obligation (unsat = holds for all inputs inside the bounds); counterexamples are replayed natively before they are reported",
 		"functions_encoded": fl, "entries": entries, "bounds": spec.Bounds, "outside_claim": spec.Outside, "stubs": spec.Stubs,
 		"solver": "z3-new 5.1.0", "solver_time_s": round3(solverS), "inconclusive": unknown,
 		"load_and_ssa_build_s": round3(loadTime.Seconds()), "result_lines": lines,
@@ -421,7 +426,7 @@ func writeEvidenceBroken(verif string, spec *Spec, tier string, seed int, why st
 	}
 	ev := map[string]any{"property_id": spec.Property, "tier": tier, "seed": seed, "level": "other",
 		"coverage": map[string]any{"explanation": "check could not run: " + why, "evaluations": 0, "distinct_nontrivial": 0},
-		"wall_s": round3(wall.Seconds()), "violations": 0}
+		"wall_s":   round3(wall.Seconds()), "violations": 0}
 	b, _ := json.MarshalIndent(ev, "", " ")
 	os.MkdirAll(filepath.Join(verif, "evidence"), 0o755)
 	os.WriteFile(filepath.Join(verif, "evidence", spec.Property+".json"), b, 0o644)
